@@ -260,3 +260,30 @@ package document
 //@ requires t != nil
 //@ modifies nothing
 //@ ensures err == nil <==> config != nil
+
+// SetAlternatingRowColors never fails on an owned table (every index it passes to SetCellShading is in range) and shades
+// every cell: rows 0, 2, 4, ... with evenRowColor, the others with oddRowColor; properties objects are kept where they
+// existed and are installed fresh (per cell) where they did not.
+//@ func (*Table).SetAlternatingRowColors
+//@ props C09
+//@ requires t != nil && rowsOwn(t) && cellPropsOwn(t)
+//@ modifies TableCell.Properties, TableCellProperties.Shd
+//@ ensures err == nil
+//@ ensures forall r int, c int :: 0 <= r && r < len(t.Rows) && 0 <= c && c < len(t.Rows[r].Cells) ==> t.Rows[r].Cells[c].Properties != nil && (old(t.Rows[r].Cells[c].Properties) != nil ==> t.Rows[r].Cells[c].Properties == old(t.Rows[r].Cells[c].Properties)) && t.Rows[r].Cells[c].Properties.Shd != nil && t.Rows[r].Cells[c].Properties.Shd.Val == "clear" && t.Rows[r].Cells[c].Properties.Shd.Fill == ite(r % 2 == 0, evenRowColor, oddRowColor)
+//@ ensures rowsOwn(t) && cellPropsOwn(t)
+//@ ensures old(rowPropsOwn(t)) ==> rowPropsOwn(t)
+//@ ensures old(cellParasOwn(t)) ==> cellParasOwn(t)
+//@ ensures old(paraRunsOwn(t)) ==> paraRunsOwn(t)
+//@ loop 1
+//@   invariant 0 <= #i && #i <= len(t.Rows)
+//@   invariant rowsOwn(t) && cellPropsOwn(t)
+//@   invariant forall r int, c int :: 0 <= r && r < len(t.Rows) && 0 <= c && c < len(t.Rows[r].Cells) && old(t.Rows[r].Cells[c].Properties) != nil ==> t.Rows[r].Cells[c].Properties == old(t.Rows[r].Cells[c].Properties)
+//@   invariant forall r int, c int :: 0 <= r && r < #i && 0 <= c && c < len(t.Rows[r].Cells) ==> t.Rows[r].Cells[c].Properties != nil && t.Rows[r].Cells[c].Properties.Shd != nil && t.Rows[r].Cells[c].Properties.Shd.Val == "clear" && t.Rows[r].Cells[c].Properties.Shd.Fill == ite(r % 2 == 0, evenRowColor, oddRowColor)
+//@   decreases len(t.Rows) - #i
+//@ loop 2
+//@   invariant 0 <= i && i < len(t.Rows) && 0 <= #i && #i <= len(t.Rows[i].Cells)
+//@   invariant bgColor == ite(i % 2 == 0, evenRowColor, oddRowColor)
+//@   invariant rowsOwn(t) && cellPropsOwn(t)
+//@   invariant forall r int, c int :: 0 <= r && r < len(t.Rows) && 0 <= c && c < len(t.Rows[r].Cells) && old(t.Rows[r].Cells[c].Properties) != nil ==> t.Rows[r].Cells[c].Properties == old(t.Rows[r].Cells[c].Properties)
+//@   invariant forall r int, c int :: 0 <= r && (r < i || (r == i && c < #i)) && 0 <= c && c < len(t.Rows[r].Cells) ==> t.Rows[r].Cells[c].Properties != nil && t.Rows[r].Cells[c].Properties.Shd != nil && t.Rows[r].Cells[c].Properties.Shd.Val == "clear" && t.Rows[r].Cells[c].Properties.Shd.Fill == ite(r % 2 == 0, evenRowColor, oddRowColor)
+//@   decreases len(t.Rows[i].Cells) - #i
